@@ -31,7 +31,7 @@ for w in range(procs):
     out = open(os.path.join(work, "miri-%s-%d.out" % (prop, w)), "w")
     err = open(os.path.join(work, "miri-%s-%d.err" % (prop, w)), "w")
     c = subprocess.Popen(
-        ["cargo", "+nightly", "miri", "run", "--offline", "--", "worker", "--prop", prop, "--tier", "miri", "--seed", str(seed), "--workers", str(procs), "--index", str(w), "--runs", str(total)],
+        ["cargo", "+nightly", "miri", "run", "--offline", "--", "worker", "--prop", prop, "--tier", "miri", "--seed", str(seed), "--workers", str(procs), "--index", str(w), "--runs", str(total), "--watchdog", "1200"],
         cwd=sim, env=env, stdout=out, stderr=err)
     children.append((w, c, out, err))
 runs_done = 0
